@@ -35,7 +35,8 @@ pub mod kinds {
         ZIPREFREFNEW = 31, ZIPOWNEDREF = 32, ZIPREFOWNED = 33, FOLDDROP = 34, ARRCLONE = 35, FLATTEN = 36, UNFLATTEN = 37, TONATIVE = 38, FROMNATIVE = 39,
         TOTUPLE = 40, FROMTUPLE = 41, ARRTOVEC = 42, VECTOARR = 43, ARRTOBSLICE = 44, BSLICETOARR = 45, BOXNEW = 46, UNBOX = 47, BOXINTOVEC = 48,
         BOXINTOBSLICE = 49, VECTOBOX = 50, BSLICETOBOX = 51, BOXINTOITER = 52, VINEXT = 53, VINEXTBACK = 54, BOXMAPREPLACE = 55, BOXZIPKEEPLEFT = 56,
-        BOXFOLDDROP = 57, BOXCLONE = 58, VECTOVI = 59, ITERTRYCOLLECT = 60, ITERTRYCOLLECTBOX = 61, VITRYCOLLECT = 62,
+        BOXFOLDDROP = 57, BOXCLONE = 58, VECTOVI = 59, ITERTRYCOLLECT = 60, ITERTRYCOLLECTBOX = 61, VITRYCOLLECT = 62, ZIPPLAINREF = 63, ZIPPLAINMUT = 64, ZIPPLAINOWNED = 65, ZIPPLAINLEFT = 66,
+        ZIPPLAINLEFTREF = 67, BOXZIPPLAIN = 68,
     }
 }
 use kinds::*;
@@ -153,6 +154,9 @@ fn enabled(pool: &[M], caps: Caps) -> Vec<Op> {
                 }
                 v.push(op1(MAPPASS, i, 0, 0));
                 v.push(op1(MAPREPLACE, i, 0, 0));
+                for k in [ZIPPLAINREF, ZIPPLAINMUT, ZIPPLAINOWNED, ZIPPLAINLEFT, ZIPPLAINLEFTREF] {
+                    v.push(op1(k, i, 0, 0));
+                }
                 if room_c(1) && room_e(n) {
                     v.push(op1(MAPREFNEW, i, 0, 0));
                     v.push(op1(MAPMUTNEW, i, 0, 0));
@@ -227,6 +231,7 @@ fn enabled(pool: &[M], caps: Caps) -> Vec<Op> {
                 v.push(op1(BOXINTOBSLICE, i, 0, 0));
                 v.push(op1(BOXINTOITER, i, 0, 0));
                 v.push(op1(BOXMAPREPLACE, i, 0, 0));
+                v.push(op1(BOXZIPPLAIN, i, 0, 0));
                 v.push(op1(BOXFOLDDROP, i, 0, 0));
                 if room_c(1) && room_e(n) {
                     v.push(op1(BOXCLONE, i, 0, 0));
@@ -417,7 +422,7 @@ fn apply_model(op: Op, mut t: Vec<M>) -> Vec<M> {
             let x = a.ids.swap_remove(p);
             vec![M::new(ARR, a.n - 1, a.ids), M::new(HELD, 1, vec![x])]
         }
-        MAPPASS => vec![a.unwrap()],
+        MAPPASS | ZIPPLAINREF | ZIPPLAINMUT | ZIPPLAINOWNED | ZIPPLAINLEFT | ZIPPLAINLEFTREF | BOXZIPPLAIN => vec![a.unwrap()],
         MAPREPLACE => {
             let a = a.unwrap();
             vec![fresh(ARR, a.n, a.n)]
